@@ -10,6 +10,12 @@
 // nng_pipe_close (same handle twice, parent and child concurrently, both ends)
 // while submitter threads keep calling the API on the same handles.
 //
+// A close plan is issued by a harness thread or from inside a library callback
+// (completion of a dedicated nng_sleep_aio, or of one of the case's pending
+// operations - the latter only for closes that do not have to wait for that
+// very callback: nng_ctx_close, nng_pipe_close, device cancel).  Transports: inproc, ipc, tcp, ws,
+// socket:// and udp.
+//
 // Oracles: (1) every close returns (watchdog, 30 s per case); (2) every operation pending on
 // a closed object has its callback / returns within GRACE after the closes
 // returned; (3) any call that begins after a close of the handle (or of its
@@ -71,7 +77,7 @@ typedef struct rec {
 	_Atomic int      pending_at_close;
 	_Atomic uint64_t t_cb;
 	struct closer *_Atomic on_cb; // close plan to run from inside this record's callback
-	bool             lost;
+	bool             lost, is_trigger;
 	struct casectx  *cx;
 } rec;
 
@@ -1389,7 +1395,7 @@ run_case(long idx, vf_rng *r)
 	casectx *cx = calloc(1, sizeof(*cx));
 	char     vurl[128] = "", durl[128], url[128];
 	int      v_lh = -1, rv;
-	bool     m_expiry = !strcmp(vf_mode, "expiry"), m_redial = !strcmp(vf_mode, "redial"), m_device = !strcmp(vf_mode, "device"), m_cbclose = !strcmp(vf_mode, "cbclose");
+	bool     m_expiry = !strcmp(vf_mode, "expiry"), m_redial = !strcmp(vf_mode, "redial"), m_device = !strcmp(vf_mode, "device");
 
 	pthread_mutex_init(&cx->hmtx, NULL);
 	cx->idx = idx;
@@ -1400,8 +1406,16 @@ run_case(long idx, vf_rng *r)
 	uint32_t tsel     = vf_below(r, 100);
 	cx->tran          = tsel < 36 ? VF_T_INPROC : tsel < 52 ? VF_T_IPC : tsel < 79 ? VF_T_TCP : tsel < 84 ? VF_T_WS : tsel < 92 ? VF_T_SOCKFD : T_UDP;
 	if (m_redial) cx->tran = VF_T_TCP;
-	cx->device = m_device || (!m_redial && !m_cbclose && vf_chance(r, 1, 10));
+	// development knobs (not used by the check): pin protocol / transport
+	if (getenv("C10_PROTO") && vf_proto_by_name(getenv("C10_PROTO"))) {
+		P = vf_proto_by_name(getenv("C10_PROTO"));
+		Q = vf_proto_by_name(P->peer_name);
+		cx->proto = P;
+	}
+	if (getenv("C10_TRAN")) cx->tran = atoi(getenv("C10_TRAN"));
+	cx->device = m_device || (!m_redial && vf_chance(r, 1, 10));
 	cx->rawv   = !cx->device && vf_chance(r, 1, 7);
+	if (getenv("C10_RAW")) cx->rawv = !cx->device;
 	cx->notify = vf_chance(r, 1, 2);
 	cx->expiry = m_expiry;
 	int tmo    = -1; // operations pending at close time never expire by themselves
@@ -1420,7 +1434,6 @@ run_case(long idx, vf_rng *r)
 		vf_pt_target(site, (int) vf_range(r, 300, 1000), 100, (int) vf_range(r, 300, 3000));
 	}
 	int shape = (int) vf_below(r, 10);
-	if (m_cbclose) shape = (int) vf_below(r, 4); // the victim socket itself is closed
 	vf_case_begin(idx, "proto=%s%s tran=%s%s shape=%d pert=%s mode=%s", P->name, cx->rawv ? "(raw)" : "", tname(cx->tran), cx->device ? " device" : "", shape,
 	    pert < 2 ? "none" : pert < 5 ? "jitter" : vf_pt_name(site), vf_mode);
 	vf_url(VF_T_INPROC, cx->dead_url, sizeof(cx->dead_url)); // nobody ever listens there
@@ -1745,25 +1758,29 @@ run_case(long idx, vf_rng *r)
 		c->cx     = cx;
 		c->mode   = CM_THREAD;
 		uint32_t msel = vf_below(r, 10);
-		if (m_cbclose && msel >= 2) msel = msel < 4 ? 6 : 9;
 		if (c->na == 0 || msel < 6 || cb_budget <= 0) continue;
 		cb_budget--;
-		// Outside mode cbclose a plan that closes a socket is not run from an
-		// operation's own callback: that callback may be running inside the
-		// receive/send completion of the very pipe the close then waits for
-		// (nni_aio_finish_sync), see mode cbclose for that shape.
-		bool has_sock = false;
-		for (int i = 0; i < c->na; i++) has_sock |= c->a[i].kind == CA_SOCK;
-		if (msel < 8 || (has_sock && !m_cbclose)) {
+		// A close that has to wait for the callback it is called from is a
+		// documented deadlock (nng_aio_wait must not be called from an aio
+		// callback; socket and endpoint close contain that wait), not a
+		// finding.  So an operation's own callback never closes its socket
+		// or an endpoint of its socket (over udp the endpoint's receive aio
+		// carries the pipes' traffic; a dialer waits for its own
+		// nng_dialer_start_aio); such plans run from the unrelated
+		// nng_sleep_aio callback instead.
+		bool waits_for_self = false;
+		for (int i = 0; i < c->na; i++) waits_for_self |= c->a[i].kind == CA_SOCK || c->a[i].kind == CA_DIALER || c->a[i].kind == CA_LISTENER;
+		if (msel < 8 || waits_for_self) {
 			c->mode = CM_SLEEP_CB;
 			if (nng_aio_alloc(&c->aio, closer_sleep_cb, c) != 0) vf_harness_fail("aio alloc");
 			continue;
 		}
 		for (int i = 0; i < cx->nr; i++) {
 			rec *rc = &cx->r[i];
-			if (rc->owner_sub < 0 && rc->op != OP_DEVICE && !rec_idle(rc) && atomic_load(&rc->on_cb) == NULL && cx->h[rc->hidx].owner == V && vf_chance(r, 1, 2)) {
-				c->mode    = CM_OP_CB;
-				c->trigger = rc;
+			if (rc->owner_sub < 0 && rc->op != OP_DEVICE && !rec_idle(rc) && !rc->is_trigger && cx->h[rc->hidx].owner == V && vf_chance(r, 1, 2)) {
+				c->mode        = CM_OP_CB;
+				c->trigger     = rc;
+				rc->is_trigger = true;
 				break;
 			}
 		}
@@ -1894,6 +1911,8 @@ run_case(long idx, vf_rng *r)
 	vf_stat("handles_tracked", atomic_load(&cx->nh));
 	if (cx->notify) vf_stat("pipe_rem_post_events", atomic_load(&cx->rem_post));
 	vf_stat("cases", 1);
+	if (cx->tran == T_UDP && connected) vf_stat("cases_connected_over_udp", 1);
+	if (cx->tran == VF_T_SOCKFD && connected) vf_stat("cases_connected_over_sockfd", 1);
 	vf_class("case=%s%s/%s/shape%d", P->name, cx->device ? "(device)" : cx->rawv ? "(raw)" : "", tname(cx->tran), shape);
 	vf_class("pert=%s", pert < 2 ? "none" : pert < 5 ? "jitter" : vf_pt_name(site));
 	if ((idx & 31) == 0) {
